@@ -462,6 +462,31 @@ impl Prop for C06 {
                 errs.push(format!("shuffle (sort={sort}): 16 seeds gave one and the same batch sequence"));
             }
         }
+        // the assumption behind the exact line: the draws of `shuffle` depend only on the slice
+        // length (not on the element type), so an index vector replays a shuffle of items, and the
+        // two generators stay in step afterwards
+        for seed in [0u64, 1, 77, 1 << 40] {
+            let mut r1 = ChaCha8Rng::seed_from_u64(seed);
+            let mut r2 = ChaCha8Rng::seed_from_u64(seed);
+            for n in 0..40usize {
+                let mut idx: Vec<usize> = (0..n).collect();
+                let mut items: Vec<Item> = (0..n).map(|id| Item { id, size: id * 7 }).collect();
+                idx.shuffle(&mut r1);
+                items.shuffle(&mut r2);
+                if idx != items.iter().map(|x| x.id).collect::<Vec<_>>() {
+                    errs.push(format!("shuffle of an index vector and of items differ (seed {seed}, n {n})"));
+                }
+                if n > 0 && r1.random_range(0..n) != r2.random_range(0..n) {
+                    errs.push(format!("generators out of step after a shuffle (seed {seed}, n {n})"));
+                }
+                let p = lehmer(&idx);
+                let mut rem: Vec<usize> = (0..n).collect();
+                let back: Vec<usize> = p.iter().map(|i| rem.remove(*i)).collect();
+                if back != idx {
+                    errs.push(format!("selection sequence does not reproduce the permutation (seed {seed}, n {n})"));
+                }
+            }
+        }
         errs
     }
 }
